@@ -27,4 +27,10 @@ def pkgGlobals : List (String × String × String × List String) := [
   ("procbuilder", "Allshared", "slice", ["init"])
 ]
 
+/-- uses of the wall clock / timers (package time) in the simulator packages: (file, function, call).
+    A simulation step that consults the clock makes the trace depend on the host's load. -/
+def clockSites : List (String × String × String) := [
+  ("pkg/procbuilder/machine.go", "init", "time.Now")
+]
+
 end BMV.Gen.OpcodeState
